@@ -150,7 +150,22 @@ def gen(rng, tier):
             aw(["isclosed", c], "false")
             aw(["send", c, f"{c}:w2i:1:{k}q", ["none"]], "ok")
             ai(["recv", c], f"tok:{c}:w2i:1:{k}q")
-    final = rng.choice(["return", "return", "raise"])
+    final = rng.choice(["return", "return", "raise", "exit_then_drain"])
+    if final == "exit_then_drain":
+        # the initiator exits the gateway while the body still has something to deliver: the worker gets its few
+        # seconds of grace on every transport, so the late items and the close arrive all the same
+        aw(["send", "c0", f"c0:w2i:1:{k}first", ["none"]], "ok")
+        aw(["sleep", 1.0], "ok")
+        aw(["send", "c0", f"c0:w2i:1:{k}late", L.gen_fill(rng, False)], "ok")
+        aw(["send", "c0", f"c0:w2i:1:{k}big", ["bytes", 70000]], "ok")
+        ai(["recv", "c0"], f"tok:c0:w2i:1:{k}first")
+        ai(["gwexit", 0], "ok")
+        ai(["recv", "c0"], f"tok:c0:w2i:1:{k}late")
+        ai(["recv", "c0"], f"tok:c0:w2i:1:{k}big")
+        ai(["recv", "c0"], "eof")
+        ai(["waitclose", "c0", 600], "any")
+        return {"mode": "equiv", "backend": backend, "I": I, "W": W, "EI": EI, "EW": EW, "H": H,
+                "knob_seed": rng.randrange(1 << 30), "nsteps": len(I) + len(W), "errtext_limit": 4000}
     if final == "raise":
         aw(["raise", "body boom"], "raised")
         ai(["waitclose", "c0", 600], "remote:BodyError")
@@ -200,6 +215,8 @@ def build(case, transport, rng):
     for o in I:
         if o[0] in ("exec", "exec_src"):
             o[3] = gwi
+        if o[0] == "gwexit":
+            o[1] = gwi
     actors = [{"side": "i", "gw": gwi, "chan": None, "ops": [["exec", "c0", 1, gwi]] + I + [["terminate", 10.0]]},
               {"side": "w", "gw": gwi, "chan": "c0", "ops": [list(o) for o in case["W"]]}]
     expect = {"0": ["chan"] + list(case["EI"]) + ["any"], "1": list(case["EW"])}
@@ -222,6 +239,8 @@ def transcript(case, res, hist):
             rr = r[1] if r else ("<no result>",)
             if rr and rr[0] == "status":
                 rr = ("status", "ok")  # the counters themselves are timing dependent
+            if rr and rr[0] == "exc" and rr[1] == "EOFError":
+                rr = ("exc", "EOFError")  # the text names the IO class' way of noticing the end of the stream
             if rr and rr[0] == "exc" and rr[1] == "RemoteError":
                 rr = ("exc", "RemoteError", rr[2].strip().splitlines()[-1] if rr[2].strip() else "")
             ent = [aid, oi, op[0], rr]
